@@ -390,5 +390,5 @@ def targets(ctx):
         lambda t: {"ast": t[0], "seed": t[1], **({"opts": t[2]} if t[2] else {})})
     return [
         Target("all_cardinalities_service", fixed_ev, cases=fixed_cases, exhaustive=False, shard_cases=True, quick=5, thorough=5),
-        Target("grammar_services", grammar_ev, strategy=strat, quick=4, thorough=50, time_quick=120, time_thorough=1500, pin_budget=10, pin_sigs=1),
+        Target("grammar_services", grammar_ev, strategy=strat, quick=12, thorough=80, time_quick=120, time_thorough=1500, pin_budget=10, pin_sigs=1),
     ]
